@@ -83,7 +83,7 @@ func (r *requestContext) Finalize(upstream rule.Backend) error {
 	logger := zerolog.Ctx(r.AppContext())
 
 	if err := r.PipelineError(); err != nil {
-		return err
+		return heimdall.WithAuthenticationChallenge(err, r.UpstreamHeaders())
 	}
 
 	if upstream == nil {
